@@ -97,6 +97,8 @@ def sim_choice(seq):
 
 
 def sim_randint(a, b):
+    if b < a:
+        raise ValueError(f"empty range for randrange() ({a}, {b + 1}, {b + 1 - a})")  # as random.randint does
     idx = current().pick("randint", b - a + 1)
     for obs in draw_observers:
         obs("randint", (a, b), idx)
